@@ -25,14 +25,14 @@ class SClamp(S):
 class T(param.Parameterized):
     p = param.Integer(1, bounds=(0, 5), allow_refs=True)
     q = param.Integer(1, bounds=(0, 5), allow_refs=True)
-    r = param.List([7, 7], allow_refs=True, nested_refs=True)
+    r = param.Parameter([7, 7], allow_refs=True, nested_refs=True)
     k = param.Integer(1, bounds=(0, 5), allow_refs=True, constant=True)
 
 
 class TShared(param.Parameterized):
     p = param.Integer(1, bounds=(0, 5), allow_refs=True, per_instance=False)
     q = param.Integer(1, bounds=(0, 5), allow_refs=True, per_instance=False)
-    r = param.List([7, 7], allow_refs=True, nested_refs=True, per_instance=False)
+    r = param.Parameter([7, 7], allow_refs=True, nested_refs=True, per_instance=False)
     k = param.Integer(1, bounds=(0, 5), allow_refs=True, constant=True, per_instance=False)
 
 
@@ -76,6 +76,14 @@ class System:
             return self.s[r["s"]].param.v.rx().rx.pipe(_inc)
         if k == "nested":
             return [self.s[r["s"]].param.v, 7]
+        if k == "nestedd":
+            return {"k": self.s[r["s"]].param.v, "c": 7}
+        if k == "nestedt":
+            return (self.s[r["s"]].param.v, 7)
+        if k == "nestedb":
+            return [param.bind(_inc, self.s[r["s"]].param.v), 8]
+        if k == "nested2":
+            return [[self.s[r["s"]].param.v], 7]
         raise ValueError(k)
 
     def init(self, st):
@@ -116,7 +124,20 @@ class System:
     def obs(self):
         t = self.t
         r = t.r
-        rv = (99 if r[0] is None else 100 + r[0]) if isinstance(r, list) and len(r) == 2 and r[1] == 7 and (r[0] is None or isinstance(r[0], int)) else ("?", repr(r))
+        def enc(base, x):
+            return base - 1 if x is None else base + x if isinstance(x, int) and not isinstance(x, bool) else ("?", repr(r))
+        if type(r) is list and len(r) == 2 and r[1] == 7 and type(r[0]) is list and len(r[0]) == 1:
+            rv = enc(500, r[0][0])
+        elif type(r) is list and len(r) == 2 and r[1] == 7:
+            rv = enc(100, r[0])
+        elif type(r) is list and len(r) == 2 and r[1] == 8:
+            rv = enc(400, r[0])
+        elif type(r) is dict and list(r) == ["k", "c"] and r["c"] == 7:
+            rv = enc(200, r["k"])
+        elif type(r) is tuple and len(r) == 2 and r[1] == 7:
+            rv = enc(300, r[0])
+        else:
+            rv = ("?", repr(r))
         watched = []
         sync = getattr(type(t.param), "_sync_refs", None)
         for i, s in self.s.items():
